@@ -78,6 +78,10 @@ CutPubMid(p, m) ==
        /\ pstat' = [q \in Pubs |-> IF ConnOf(q) = c /\ pstat[q] = "up" THEN "down" ELSE pstat[q]]
     /\ ncuts' = ncuts + 1
     /\ UNCHANGED <<sstat, got>>
+\* flush() on a handle whose connection was lost: it notices and re-registers, without a message being at stake
+Notice(p) == /\ pstat[p] = "down"
+             /\ pstat' = [pstat EXCEPT ![p] = "up"]
+             /\ UNCHANGED <<sstat, sentn, owed, opt, got, ncuts>>
 \* a subscriber's connection is lost; it re-registers before anything else is published
 CutSub(s) == /\ Quiet /\ ncuts < MaxCuts /\ sstat[s] = "up"
              /\ sstat' = [sstat EXCEPT ![s] = IF ResubscribeAfterLoss THEN "up" ELSE "gone"]
@@ -96,6 +100,7 @@ Receive(s, p, n) ==
 
 LNext == \/ \E p \in Pubs : OpenPub(p) \/ Publish(p) \/ Finish(p) \/ CutPub(p)
          \/ \E p \in Pubs, m \in 1..3 : CutPubMid(p, m)
+         \/ \E p \in Pubs : Notice(p)
          \/ \E s \in Subs : OpenSub(s) \/ CutSub(s)
          \/ \E s \in Subs, p \in Pubs, n \in 1..MaxItems : Receive(s, p, n)
 LSpec == LInit /\ [][LNext]_lvars
